@@ -174,7 +174,9 @@ def run_history(sb, i, rnd, v, xattrs):
         for name, size in (("big70k.bin", 70001), ("big300k.bin", 300000), ("big1m.bin", (1 << 20) + 4097),
                            ("big2m.bin", (5 << 19) + 13)):
             with open(os.path.join(root, "t", name), "wb") as f:
-                f.write((bytes(rnd.getrandbits(8) for _ in range(4096)) * (size // 4096 + 1))[:size])
+                # incompressible for the first 300 KB (a compressor's output buffer fills and its writer takes only part of a
+                # write: seeded C02-5), then a repeated block (cheap to make, still megabytes)
+                f.write((rnd.randbytes(min(size, 300_000)) + bytes(rnd.getrandbits(8) for _ in range(4096)) * (size // 4096 + 1))[:size])
             os.utime(os.path.join(root, "t", name), (1_600_000_000, 1_600_000_000))
     src = snap(os.path.join(root, "t"), "t")
     cargs, xargs = keep_args(v, "create"), keep_args(v, "extract")
@@ -305,7 +307,11 @@ def histories(c, tier, seed):
                                   # the building writer (EntryBuilder over the in-memory FlattenWriter) under a CTR cipher with
                                   # stored files above 1 and 2 MiB (seeded C02-4: a sink that takes a write only partly)
                                   ("--store", "--aes=ctr --pbkdf2=r=1", 0, "file"), ("--store", "pw", 0, "pipe"),
-                                  ("--store", "--camellia=ctr --pbkdf2=r=1", 0, "stdio-f")):
+                                  ("--store", "--camellia=ctr --pbkdf2=r=1", 0, "stdio-f"),
+                                  # every compressor on incompressible data through the NON-solid builder (deflate's writer
+                                  # accepts only part of a write when its output buffer is full)
+                                  ("--deflate=1", "", 0, "file"), ("--deflate=9", "--aes=cbc --pbkdf2=r=1", 0, "pipe"), ("--xz=1", "", 0, "file"),
+                                  ("--zstd=3", "pw", 0, "stdio-f")):
         vs.append(dict(base, comp=comp, cipher=ciph, solid=solid, transport=tr))
     if cov:
         c.notes.append("option vectors: %d rows cover %d of %d value pairs of the 10 factors" % (n, cov[0], cov[1]))
